@@ -212,7 +212,13 @@ func c14RunGate(t *testing.T, out *vh.Out, tgt *testutils.Target, s *c14GateScn)
 		case cmd == "S":
 			code, err = w.cmd("RSET")
 		case cmd == "M":
-			code, err = w.cmd("MAIL FROM:<sender@example.org>")
+			// the gate must not depend on the reverse-path: every third MAIL uses the null sender
+			if i%3 == 1 {
+				code, err = w.cmd("MAIL FROM:<>")
+				out.Stat("gate.null-sender")
+			} else {
+				code, err = w.cmd("MAIL FROM:<sender@example.org>")
+			}
 		case cmd == "R":
 			code, err = w.cmd("RCPT TO:<rcpt%d@example.org>", i)
 		case cmd == "D":
